@@ -441,7 +441,7 @@ Lemma get_assert c k i p : Inv k c -> nth_error (ths c) i = Some p -> tassert (s
 Proof. intros HI Hi. pose proof (inv_t _ _ HI) as HT. rewrite Forall_forall in HT. apply HT. eapply nth_error_In; eauto. Qed.
 
 Lemma case_loads k c i p o : Inv k c -> nth_error (ths c) i = Some p ->
-  match p with Idle | PuLoadTail _ | PoLoadHead | PoRead _ _ _ _ => True | _ => False end ->
+  match p with Idle | PuLoadTail _ | PoLoadHead | PoRead _ _ _ _ | ObsFirst _ | ObsSecond _ _ => True | _ => False end ->
   exists s' p' r, tstep (sh c) p o = Some (s', p', r) /\ Inv k (next c i s' p' r).
 Proof.
   intros HI Hi Hp. pose proof (get_assert c k i p HI Hi) as Ha. pose proof (inv_g _ _ HI) as HG.
@@ -452,6 +452,16 @@ Proof.
   - cbn [tassert] in Ha. destruct Ha as (Hpos & Hseq & Hph & sq & Hs). subst pos.
     unfold slot_at in Hs. rewrite (sidx_u32 k _ _ HG), Hs.
     eexists _, _, _. split; [reflexivity|]. eapply local_step; eauto; cbn [tassert owner_phase]; auto; try discriminate.
+  - eexists _, _, _. split; [reflexivity|]. eapply local_step; eauto; cbn [tassert owner_phase]; auto; try discriminate.
+  - eexists _, _, _. split; [reflexivity|]. eapply local_step; eauto; cbn [tassert owner_phase]; auto; try discriminate.
+    intros x Hx. inversion Hx; subst x. unfold res_ok; cbn [snd].
+    assert (Hc : 0 <= cap (sh c)) by (rewrite (g_cap _ _ HG); apply Z.pow_nonneg; lia).
+    destruct k0.
+    + unfold len_of. cbv zeta. pose proof (Z.mod_pos_bound (a - u32 (hd (sh c))) M32 ltac:(unfold M32; lia)) as Hb.
+      change (u32 (a - u32 (hd (sh c)))) with ((a - u32 (hd (sh c))) mod M32).
+      destruct (Z.ltb_spec (cap (sh c)) ((a - u32 (hd (sh c))) mod M32)); lia.
+    + destruct (a =? u32 (tl (sh c))); auto.
+    + destruct (u32 (a - u32 (hd (sh c))) =? cap (sh c)); auto.
 Qed.
 
 Lemma case_loadseq k c i p o : Inv k c -> nth_error (ths c) i = Some p ->
@@ -626,7 +636,9 @@ Proof.
     - apply case_cas; auto.
     - apply case_loads; auto.
     - apply case_owner_writes; auto.
-    - apply case_owner_writes; auto. }
+    - apply case_owner_writes; auto.
+    - apply case_loads; auto.
+    - apply case_loads; auto. }
   destruct H as (s' & p' & r & E & HI'). rewrite E. eexists. split; [reflexivity|]. exact HI'.
 Qed.
 
